@@ -182,7 +182,7 @@ Definition gate (c : cfg) (now : Z) (a : addr) (bl : banlist) : option (bool * b
 (** pool.rs:793-849: checkout, health check when forced or not fresh. *)
 Definition contact (now : Z) (outs : addr -> outcome) (a : addr) (force : bool) (bl1 : banlist) : vres :=
   match outs a with
-  | ConnFail => Fail (ban a FailedCheckout now bl1)
+  | ConnFail => Fail (ban a FailedHealthCheck now bl1)
   | Conn fresh h =>
       if force || negb fresh
       then match h with
@@ -259,7 +259,7 @@ Definition host_addrs (c : cfg) (h : nat) : list addr :=
 (** admin.rs:441-453 for this pool *)
 Definition admin_ban (c : cfg) (h : nat) (d : Z) (now : Z) (bl : banlist) : banlist :=
   if d <=? 0 then bl
-  else fold_left (fun b a => ban a (AdminBan d) now b) (host_addrs c h) bl.
+  else fold_left (fun b a => if is_banned a b then b else ban a (AdminBan d) now b) (host_addrs c h) bl.
 
 (** admin.rs:484-496 *)
 Definition admin_unban (c : cfg) (h : nat) (bl : banlist) : banlist :=
